@@ -91,4 +91,358 @@ theorem cache_fold_pool (txid : Txid) (outs : List UtxoEntry) (n : Nat) (cache :
     simp only [List.count_append] at e1 e2 ⊢
     omega
 
+theorem zip_ranges (os : List TxOut) (rss : List Ranges) (h : os.length = rss.length) :
+    (List.map (fun (x : UtxoEntry × Ranges) => ({ value := x.fst.value, ranges := x.snd, script := x.fst.script, ins := x.fst.ins } : UtxoEntry))
+      ((List.map (fun _ => UtxoEntry.empty) os).zip rss)).map (·.ranges) = rss := by
+  induction os generalizing rss with
+  | nil => cases rss <;> simp_all
+  | cons o os ih =>
+    cases rss with
+    | nil => simp at h
+    | cons r rss => simp at h; simp [ih rss h]
+
+theorem zip_script (es : List UtxoEntry) (os : List TxOut) :
+    (List.map (fun (x : UtxoEntry × TxOut) => ({ value := x.fst.value, ranges := x.fst.ranges, script := x.snd.script, ins := x.fst.ins } : UtxoEntry))
+      (es.zip os)).map (·.ranges) = (es.zip os).map (·.1.ranges) := by
+  simp
+
+theorem zip_fst_of_length {α β : Type} (a : List α) (b : List β) (h : a.length = b.length) :
+    (a.zip b).map (·.1) = a := by
+  induction a generalizing b with
+  | nil => simp
+  | cons x a ih =>
+    cases b with
+    | nil => simp at h
+    | cons y b => simp at h; simp [ih b h]
+
+/-- what `indexTransactionSats` gives, in the form the block proofs use -/
+theorem indexTransactionSats_facts (values : List Nat) (inputs : Ranges) (t : TxSats)
+    (h : indexTransactionSats values inputs = some t) :
+    t.outputs.length = values.length ∧ den (t.outputs.flatten ++ t.leftover) = den inputs ∧
+    (WF inputs → WF (t.outputs.flatten ++ t.leftover)) := by
+  rw [indexTransactionSats_spec] at h
+  split at h
+  · cases h
+    refine ⟨assignOutputsR_length values inputs, assignOutputsR_flatten_den values inputs, fun hq => ?_⟩
+    obtain ⟨w1, w2⟩ := assignOutputsR_WF values inputs hq
+    apply WF_append.mpr
+    refine ⟨?_, w2⟩
+    intro r hr
+    obtain ⟨o, ho, hro⟩ := List.mem_flatten.mp hr
+    exact w1 o ho r hro
+  · cases h
+
+/-- the output entries built by `indexTx` carry exactly the ranges `indexTransactionSats` assigned -/
+theorem built_outs_ranges (addr : Bool) (os : List TxOut) (rss : List Ranges) (h : rss.length = os.length) :
+    (if addr = true then
+        List.map (fun (x : UtxoEntry × TxOut) => ({ value := x.fst.value, ranges := x.fst.ranges, script := x.snd.script, ins := x.fst.ins } : UtxoEntry))
+          ((List.map (fun (x : UtxoEntry × Ranges) => ({ value := x.fst.value, ranges := x.snd, script := x.fst.script, ins := x.fst.ins } : UtxoEntry))
+            ((List.map (fun _ => UtxoEntry.empty) os).zip rss)).zip os)
+      else
+        List.map (fun (x : UtxoEntry × Ranges) => ({ value := x.fst.value, ranges := x.snd, script := x.fst.script, ins := x.fst.ins } : UtxoEntry))
+          ((List.map (fun _ => UtxoEntry.empty) os).zip rss)).flatMap (·.ranges) = rss.flatten := by
+  have h1 := zip_ranges os rss h.symm
+  rw [List.flatMap_def]
+  cases addr
+  · simp only [Bool.false_eq_true, if_false, h1]
+  · simp only [if_true, zip_script]
+    have hf : (fun x : UtxoEntry × TxOut => x.fst.ranges) = (fun e : UtxoEntry => e.ranges) ∘ (fun x : UtxoEntry × TxOut => x.1) := rfl
+    rw [hf, ← List.map_map, zip_fst_of_length _ _ (by simp [h]), h1]
+
+/-- a transaction that is not the coinbase keeps the pool good -/
+theorem indexTx_noncb (cfg : Cfg) (hs : cfg.indexSats = true) (blk : Block) (off : Nat) (hoff : off ≠ 0) (tx : Tx)
+    (bc bc' : BlockCtx) (B : Nat) (g : GoodR B (poolR bc))
+    (h : indexTx cfg blk false off tx bc = .ok bc') :
+    GoodR B (poolR bc') ∧ bc'.ins = bc.ins ∧ bc'.st.height = bc.st.height := by
+  simp only [indexTx, hoff, if_false, hs, if_true] at h
+  split at h
+  · cases h
+  · cases h
+  · rename_i bc1 inputs htake
+    obtain ⟨hp, hcb, hlost, hh, hins⟩ := takeInputEntries_pool cfg tx.inputs bc [] bc1 inputs htake
+    cases hr : indexTransactionSats (List.map (fun x => x.value) tx.outputs)
+        (List.flatMap (fun x => x.snd.ranges) inputs) with
+    | none => simp [hr] at h
+    | some r =>
+      simp only [hr, Bool.false_eq_true, if_false, Outcome.ok.injEq] at h
+      subst h
+      refine ⟨?_, hins, hh⟩
+      obtain ⟨hlen, hden, hwf⟩ := indexTransactionSats_facts _ _ r hr
+      simp only [List.length_map] at hlen
+      have hout := built_outs_ranges cfg.indexAddresses tx.outputs r.outputs hlen
+      have key : ∀ outs : List UtxoEntry, outs.flatMap (·.ranges) = r.outputs.flatten →
+          ∃ d, (allRanges (List.foldl (fun c (p : Nat × UtxoEntry) => AL.set c ⟨tx.txid, p.1⟩ p.2) bc1.cache
+            (enumFrom 0 outs)) ++ d).Perm (allRanges bc1.cache ++ r.outputs.flatten) := by
+        intro outs ho
+        obtain ⟨d, hd⟩ := cache_fold_pool tx.txid outs 0 bc1.cache
+        exact ⟨d, ho ▸ hd⟩
+      simp only [poolR]
+      generalize hF : List.foldl _ bc1.cache _ = F
+      obtain ⟨d, hd⟩ : ∃ d, (allRanges F ++ d).Perm (allRanges bc1.cache ++ r.outputs.flatten) := by
+        subst hF; exact key _ hout
+      -- pool before, with the spent entries' ranges pulled out
+      have g1 : GoodR B ((allRanges bc1.st.utxo ++ allRanges bc1.cache ++ bc1.coinbaseInputs ++ bc1.lostRanges)
+          ++ entryRanges inputs) := by
+        refine g.perm (perm_of_counts fun x => ?_)
+        have := hp.count_eq x
+        simp only [poolR, entryRanges, List.flatMap_nil, List.append_nil, List.count_append, hcb, hlost] at this ⊢
+        omega
+      have g2 := GoodR.replace (y := r.outputs.flatten ++ r.leftover) hden
+        (hwf (WF_append.mp g1.1).2) g1
+      refine GoodR.sub (d := d) (perm_of_counts fun x => ?_) g2
+      have := hd.count_eq x
+      simp only [List.count_append] at this ⊢
+      omega
+
+/-- the pool once the coinbase has been indexed: its inputs are used up -/
+def poolR' (bc : BlockCtx) : Ranges := allRanges bc.st.utxo ++ allRanges bc.cache ++ bc.lostRanges
+
+/-- the coinbase (indexed last) turns the coinbase inputs into its outputs and the lost ranges -/
+theorem indexTx_cb (cfg : Cfg) (hs : cfg.indexSats = true) (blk : Block) (tx : Tx)
+    (bc bc' : BlockCtx) (B : Nat) (g : GoodR B (poolR bc))
+    (h : indexTx cfg blk false 0 tx bc = .ok bc') :
+    GoodR B (poolR' bc') ∧ bc'.ins = bc.ins ∧ bc'.st.height = bc.st.height := by
+  simp only [indexTx, if_true, hs] at h
+  cases hr : indexTransactionSats (List.map (fun x => x.value) tx.outputs) bc.coinbaseInputs with
+  | none => simp [hr] at h
+  | some r =>
+    simp only [hr, Bool.false_eq_true, if_false, Outcome.ok.injEq] at h
+    subst h
+    refine ⟨?_, rfl, rfl⟩
+    obtain ⟨hlen, hden, hwf⟩ := indexTransactionSats_facts _ _ r hr
+    simp only [List.length_map] at hlen
+    have hout := built_outs_ranges cfg.indexAddresses tx.outputs r.outputs hlen
+    have key : ∀ outs : List UtxoEntry, outs.flatMap (·.ranges) = r.outputs.flatten →
+        ∃ d, (allRanges (List.foldl (fun c (p : Nat × UtxoEntry) => AL.set c ⟨tx.txid, p.1⟩ p.2) bc.cache
+          (enumFrom 0 outs)) ++ d).Perm (allRanges bc.cache ++ r.outputs.flatten) := by
+      intro outs ho
+      obtain ⟨d, hd⟩ := cache_fold_pool tx.txid outs 0 bc.cache
+      exact ⟨d, ho ▸ hd⟩
+    simp only [poolR']
+    generalize hF : List.foldl _ bc.cache _ = F
+    obtain ⟨d, hd⟩ : ∃ d, (allRanges F ++ d).Perm (allRanges bc.cache ++ r.outputs.flatten) := by
+      subst hF; exact key _ hout
+    have g1 : GoodR B ((allRanges bc.st.utxo ++ allRanges bc.cache ++ bc.lostRanges) ++ bc.coinbaseInputs) := by
+      refine g.perm (perm_of_counts fun x => ?_)
+      simp only [poolR, List.count_append]
+      omega
+    have g2 := GoodR.replace (y := r.outputs.flatten ++ r.leftover) hden
+      (hwf (WF_append.mp g1.1).2) g1
+    refine GoodR.sub (d := d) (perm_of_counts fun x => ?_) g2
+    have := hd.count_eq x
+    simp only [List.count_append] at this ⊢
+    omega
+
+theorem indexTxs_noncb (cfg : Cfg) (hs : cfg.indexSats = true) (blk : Block) (l : List (Nat × Tx))
+    (hl : ∀ p ∈ l, p.1 ≠ 0) (bc bc' : BlockCtx) (B : Nat) (g : GoodR B (poolR bc))
+    (h : indexTxs cfg blk false l bc = .ok bc') :
+    GoodR B (poolR bc') ∧ bc'.ins = bc.ins ∧ bc'.st.height = bc.st.height := by
+  induction l generalizing bc with
+  | nil =>
+    simp only [indexTxs, Outcome.ok.injEq] at h
+    subst h; exact ⟨g, rfl, rfl⟩
+  | cons p l ih =>
+    obtain ⟨i, tx⟩ := p
+    simp only [indexTxs] at h
+    split at h
+    · cases h
+    · cases h
+    · rename_i bc1 h1
+      obtain ⟨g1, e1, e2⟩ := indexTx_noncb cfg hs blk i (hl (i, tx) (by simp)) tx bc bc1 B g h1
+      obtain ⟨g2, e3, e4⟩ := ih (fun p hp => hl p (by simp [hp])) bc1 g1 h
+      exact ⟨g2, e3.trans e1, e4.trans e2⟩
+
+theorem indexTxs_append (cfg : Cfg) (blk : Block) (insOn : Bool) (a b : List (Nat × Tx)) (bc bc' : BlockCtx)
+    (h : indexTxs cfg blk insOn (a ++ b) bc = .ok bc') :
+    ∃ bc1, indexTxs cfg blk insOn a bc = .ok bc1 ∧ indexTxs cfg blk insOn b bc1 = .ok bc' := by
+  induction a generalizing bc with
+  | nil => exact ⟨bc, by simp [indexTxs], by simpa using h⟩
+  | cons p a ih =>
+    obtain ⟨i, tx⟩ := p
+    simp only [List.cons_append, indexTxs] at h ⊢
+    split at h
+    · cases h
+    · cases h
+    · rename_i bc1 h1
+      obtain ⟨bc2, h2, h3⟩ := ih bc1 h
+      exact ⟨bc2, by simp [h2], h3⟩
+
+theorem enumFrom_succ_ne_zero {α : Type} (n : Nat) (l : List α) : ∀ p ∈ enumFrom (n + 1) l, p.1 ≠ 0 := by
+  induction l generalizing n with
+  | nil => simp [enumFrom]
+  | cons x l ih =>
+    intro p hp
+    simp only [enumFrom, List.mem_cons] at hp
+    rcases hp with rfl | hp
+    · simp
+    · exact ih (n + 1) p hp
+
+/-- `commit` of one cache entry: its ranges join the table (merged for the special outpoints),
+whatever it displaces is dropped -/
+theorem flushEntry_pool (cfg : Cfg) (st : State) (op : OutPoint) (e : UtxoEntry) :
+    (∃ d, (allRanges (flushEntry cfg st op e).utxo ++ d).Perm (allRanges st.utxo ++ e.ranges)) ∧
+    (flushEntry cfg st op e).height = st.height := by
+  have hu : ∀ e' : UtxoEntry, (flushEntry cfg st op e).utxo = AL.set st.utxo op e' →
+      (flushEntry cfg st op e).utxo = AL.set st.utxo op e' := fun _ h => h
+  constructor
+  · have hutxo : (flushEntry cfg st op e).utxo = AL.set st.utxo op
+        (if op.isSpecial then
+          match AL.get st.utxo op with
+          | some old => UtxoEntry.merged old e
+          | none => e
+        else e) := by
+      simp only [flushEntry]
+      split <;> split <;> rfl
+    rw [hutxo]
+    by_cases hsp : op.isSpecial = true
+    · simp only [hsp, if_true]
+      cases hg : AL.get st.utxo op with
+      | none => exact allRanges_set st.utxo op e
+      | some old =>
+        exact ⟨[], by simpa using allRanges_set_merged hg e.ranges (by simp [UtxoEntry.merged])⟩
+    · simp only [hsp, if_false]
+      exact allRanges_set st.utxo op e
+  · simp only [flushEntry]
+    split <;> split <;> rfl
+
+theorem flushCache_pool (cfg : Cfg) (cache : Cache) (st : State) :
+    (∃ d, (allRanges (flushCache cfg st cache).utxo ++ d).Perm (allRanges st.utxo ++ allRanges cache)) ∧
+    (flushCache cfg st cache).height = st.height := by
+  induction cache generalizing st with
+  | nil => exact ⟨⟨[], by simp [flushCache, allRanges_nil]⟩, rfl⟩
+  | cons p cache ih =>
+    obtain ⟨op, e⟩ := p
+    obtain ⟨⟨d1, h1⟩, e1⟩ := flushEntry_pool cfg st op e
+    obtain ⟨⟨d2, h2⟩, e2⟩ := ih (flushEntry cfg st op e)
+    simp only [flushCache, List.foldl_cons] at h2 e2 ⊢
+    refine ⟨⟨d2 ++ d1, perm_of_counts fun x => ?_⟩, e2.trans e1⟩
+    have c1 := h1.count_eq x
+    have c2 := h2.count_eq x
+    simp only [allRanges_cons, List.count_append] at c1 c2 ⊢
+    omega
+
+/-- all transactions of a block in the updater's order (`skip(1).chain(take(1))`) -/
+theorem indexTxs_order_pool (cfg : Cfg) (hs : cfg.indexSats = true) (blk : Block) (bc0 bc : BlockCtx) (B : Nat)
+    (g : GoodR B (poolR bc0))
+    (h : indexTxs cfg blk false (List.drop 1 (enumFrom 0 blk.txs) ++ List.take 1 (enumFrom 0 blk.txs)) bc0 = .ok bc) :
+    GoodR B (poolR' bc) ∧ bc.ins = bc0.ins ∧ bc.st.height = bc0.st.height := by
+  cases htx : blk.txs with
+  | nil =>
+    simp only [htx, enumFrom, List.drop_nil, List.take_nil, List.append_nil, indexTxs, Outcome.ok.injEq] at h
+    subst h
+    refine ⟨GoodR.sub (d := bc0.coinbaseInputs) (perm_of_counts fun x => ?_) g, rfl, rfl⟩
+    simp only [poolR, poolR', List.count_append]; omega
+  | cons t ts =>
+    simp only [htx, enumFrom, List.drop_succ_cons, List.drop_zero, List.take_succ_cons, List.take_zero] at h
+    obtain ⟨bc1, h1, h2⟩ := indexTxs_append cfg blk false _ _ bc0 bc h
+    obtain ⟨g1, e1, e2⟩ := indexTxs_noncb cfg hs blk _ (enumFrom_succ_ne_zero 0 ts) bc0 bc1 B g h1
+    simp only [indexTxs] at h2
+    split at h2
+    · cases h2
+    · cases h2
+    · rename_i bc2 h3
+      simp only [Outcome.ok.injEq] at h2
+      subst h2
+      obtain ⟨g2, e3, e4⟩ := indexTx_cb cfg hs blk t bc1 bc2 B g1 h3
+      exact ⟨g2, e3.trans e1, e4.trans e2⟩
+
+/-- **one block keeps the table partitioned** (sat index on, inscription index off) -/
+theorem indexUtxoEntries_partition (cfg : Cfg) (hs : cfg.indexSats = true) (hi : cfg.indexInscriptions = false)
+    (st : State) (blk : Block) (st' : State) (evs : List Event) (hh : blk.height = st.height)
+    (inv : GoodR (startingSat st.height) (allRanges st.utxo))
+    (h : indexUtxoEntries cfg st blk = .ok (st', evs)) :
+    GoodR (startingSat (st.height + 1)) (allRanges st'.utxo) ∧ st'.height = st.height := by
+  simp only [indexUtxoEntries, hi, hs, Bool.and_false, Bool.false_eq_true, if_false, true_and] at h
+  split at h
+  · cases h
+  · cases h
+  · rename_i bc hbc
+    simp only [Outcome.ok.injEq, Prod.mk.injEq] at h
+    obtain ⟨h1, _⟩ := h
+    -- the pool at the start of the block: the table plus the subsidy range
+    have g0 : GoodR (startingSat (st.height + 1))
+        (poolR { st := st,
+                 coinbaseInputs := if subsidy blk.height > 0 then
+                   [(startingSat blk.height, startingSat blk.height + subsidy blk.height)] else [],
+                 ins := { reward := subsidy blk.height, lostSats := st.lostSats, homeCount := st.home.length } }) := by
+      simp only [poolR, allRanges_nil, List.append_nil, hh]
+      rw [startingSat_succ]
+      split
+      · rename_i hpos
+        exact inv.add_range (by omega)
+      · rename_i hz
+        have : subsidy st.height = 0 := by omega
+        rw [this]; simpa using inv
+    obtain ⟨g1, hins, hhe⟩ := indexTxs_order_pool cfg hs blk _ bc _ g0 hbc
+    have hn : bc.ins.nullEntry = none := by rw [hins]
+    have hu : bc.ins.unboundEntry = none := by rw [hins]
+    cases hE : bc.lostRanges.isEmpty
+    · simp only [hE, Bool.false_eq_true, if_false, hn, hu] at h1
+      subst h1
+      obtain ⟨⟨d, hd⟩, hht⟩ := flushCache_pool cfg
+        (bc.cache ++ ([(OutPoint.null, (Option.getD (none : Option UtxoEntry) UtxoEntry.empty).merged
+          { value := 0, ranges := bc.lostRanges, script := [], ins := [] })] ++ []))
+        _
+      refine ⟨GoodR.sub (d := d) (perm_of_counts fun x => ?_) g1, hht.trans hhe⟩
+      have := hd.count_eq x
+      simp only [poolR', allRanges_append, allRanges_cons, allRanges_nil, UtxoEntry.merged, UtxoEntry.empty,
+        Option.getD_none, List.nil_append, List.append_nil, List.count_append] at this ⊢
+      omega
+    · simp only [hE, if_true, hn, hu] at h1
+      subst h1
+      have hl : bc.lostRanges = [] := List.isEmpty_iff.mp hE
+      obtain ⟨⟨d, hd⟩, hht⟩ := flushCache_pool cfg (bc.cache ++ ([] ++ [])) _
+      refine ⟨GoodR.sub (d := d) (perm_of_counts fun x => ?_) g1, hht.trans hhe⟩
+      have := hd.count_eq x
+      simp only [poolR', allRanges_append, allRanges_nil, List.append_nil, List.count_append, hl] at this ⊢
+      omega
+
+theorem satsPartitioned_iff_goodR (st : State) :
+    SatsPartitioned st ↔ GoodR (startingSat st.height) (allRanges st.utxo) :=
+  ⟨fun h => ⟨h.wf, h.nodup, h.mined⟩, fun h => ⟨h.1, h.2.1, h.2.2⟩⟩
+
+/-- `applyBlock` keeps the table partitioned (sat index on; inscription and rune indexes off) -/
+theorem applyBlock_partition (cfg : Cfg) (hs : cfg.indexSats = true) (hi : cfg.indexInscriptions = false)
+    (hr : cfg.indexRunes = false) (st : State) (blk : Block) (st' : State) (evs : List Event)
+    (hh : blk.height = st.height) (inv : SatsPartitioned st)
+    (h : applyBlock cfg st blk = .ok (st', evs)) :
+    SatsPartitioned st' ∧ st'.height = st.height + 1 := by
+  simp only [applyBlock, hs, hi, hr, Bool.or_true, if_true, Bool.false_and, Bool.false_eq_true, if_false] at h
+  split at h
+  · cases h
+  · cases h
+  · rename_i st1 ev1 h1
+    simp only [Outcome.ok.injEq, Prod.mk.injEq] at h
+    obtain ⟨h2, _⟩ := h
+    obtain ⟨g, hhe⟩ := indexUtxoEntries_partition cfg hs hi st blk st1 ev1 hh
+      ((satsPartitioned_iff_goodR st).mp inv) h1
+    subst h2
+    refine ⟨(satsPartitioned_iff_goodR _).mpr ?_, by simp [hhe]⟩
+    simpa [hhe] using g
+
+/-- block `i` of the chain has height `i` -/
+def ChainHeights (chain : List Block) : Prop := ∀ i (h : i < chain.length), chain[i].height = i
+
+/-- **every reachable state is partitioned** (sat index on; inscription and rune indexes off;
+any chain the indexer accepts, duplicate txids included) -/
+theorem reachable_partition (cfg : Cfg) (hs : cfg.indexSats = true) (hi : cfg.indexInscriptions = false)
+    (hr : cfg.indexRunes = false) (chain : List Block) (hc : ChainHeights chain) (st : State) (evs : List Event)
+    (h : run cfg chain = .ok (st, evs)) : SatsPartitioned st ∧ st.height = chain.length := by
+  have := run_induct cfg (fun pre st _ => ChainHeights pre → SatsPartitioned st ∧ st.height = pre.length)
+    (fun _ => ⟨satsPartitioned_empty.toSatsPartitioned, rfl⟩)
+    (by
+      intro pre st evs b st' ev' ih hb hch
+      have hpre : ChainHeights pre := by
+        intro i hi'
+        have := hch i (by simp; omega)
+        simpa [List.getElem_append_left hi'] using this
+      obtain ⟨inv, hlen⟩ := ih hpre
+      have hbh : b.height = st.height := by
+        have := hch pre.length (by simp)
+        simpa [hlen] using this
+      obtain ⟨inv', hh'⟩ := applyBlock_partition cfg hs hi hr st b st' ev' hbh inv hb
+      exact ⟨inv', by simp [hh', hlen]⟩)
+    chain st evs h
+  exact this hc
+
 end Ord.Index
